@@ -163,6 +163,15 @@ Definition single_read_route (r : route) : list read :=
    emitted (id, secret) pair with this program's result, schedule by schedule. *)
 Definition route_reads (r : route) : list read := single_read_route r.
 
+(* One signing operation = one request.  hyper_client::get / send_request send the request once and
+   return whatever the host answers (an error status, a closed connection) to the caller;
+   wire_server_client.rs, imds_client.rs and handle_request_with_signature call them once per call.
+   The host's answer is therefore NOT an input of a signer program: there is no retry that could
+   re-sign with fields kept from an earlier attempt.  The correspondence check answers the real
+   calls with 401/403/5xx/closed connections while the key changes and compares the number of
+   requests each call produces with this constant (and judges every one of them). *)
+Definition route_requests (_ : route) : nat := 1.
+
 (* ---------------- executable run used by the correspondence check ---------------- *)
 (* tasks: 0 = the keeper performing [ops] in order, i+1 = signer i.  The given schedule is run,
    then every signer is run to completion in index order (the keeper is NOT: the driver performs
